@@ -24,12 +24,14 @@ def base_topology():
     f = lambda L, **k: c.fiber(L, **k)     # noqa
     rp = {s: {'type_variety': 'default', 'params': {'target_pch_out_db': -20.0,
                                                     'restrictions': {'preamp_variety_list': [], 'booster_variety_list': []}}}
-          for s in 'ABC'}
-    topo = c.build_topology(['A', 'B', 'C'], [
+          for s in 'ABCD'}
+    topo = c.build_topology(['A', 'B', 'C', 'D'], [
         ('A', 'B', [c.edfa('std_low_gain', gain_target=14.0, delta_p=1.0, tilt_target=0.0, out_voa=1.0), f(80, con_in=0.5, con_out=0.5),
                     c.edfa('std_medium_gain', gain_target=20.0, delta_p=0.0, tilt_target=0.0, out_voa=0.0)],
          [f(80)]),
-        ('B', 'C', [f(60)], [f(60), c.fused(1.0), f(20)])], roadm_params=rp)
+        ('B', 'C', [f(60)], [f(60), c.fused(1.0), f(20)]),
+        # a second ROADM (C) with an operator-placed amplifier as a degree
+        ('C', 'D', [c.edfa('std_low_gain'), f(50)], [f(50)])], roadm_params=rp)
     for e in topo['elements']:
         e['metadata'] = {'location': {'latitude': 1.0, 'longitude': 2.0, 'city': 'x', 'region': 'y'}}
     return topo
@@ -59,6 +61,26 @@ def m_design_bands(d):
     el(d, 'roadm A')['params']['design_bands'] = [{'f_min': 191.3e12, 'f_max': 196.1e12, 'spacing': 50e9},
                                                   {'f_min': 186.6e12, 'f_max': 190.0e12, 'spacing': 75e9}]
     el(d, 'roadm A')['params']['per_degree_design_bands'] = {'A>B:0:Edfa': [{'f_min': 191.3e12, 'f_max': 196.1e12, 'spacing': 50e9}]}
+
+
+def m_design_bands_two(d):
+    # the same structures on two ROADMs of one document, with different contents (a converter must not carry anything over
+    # from one element to the next)
+    m_design_bands(d)
+    el(d, 'roadm C')['params']['per_degree_design_bands'] = {'C>D:0:Edfa': [{'f_min': 191.4e12, 'f_max': 196.0e12, 'spacing': 75e9}]}
+
+
+def m_per_degree_two_roadms(d):
+    m_per_degree(['pch', 'psd'])(d)
+    el(d, 'roadm C')['params']['per_degree_psd_out_mWperSlotWidth'] = {'C>B:0:Fiber': 1.5e-4}
+    el(d, 'roadm A')['params']['per_degree_pch_out_db'] = {'A>B:0:Edfa': -19.25}
+
+
+def m_two_tables(d):
+    m_loss_table('desc')(d)
+    el(d, 'B>A:0:Fiber')['params']['loss_coef'] = {'value': [0.25, 0.2, 0.21], 'frequency': [187e12, 193.4e12, 197e12]}
+    el(d, 'B>A:0:Fiber')['params']['lumped_losses'] = [{'position': 10.0, 'loss': 0.3}]
+    el(d, 'A>B:1:Fiber')['params']['lumped_losses'] = [{'position': 61.5, 'loss': 0.75}, {'position': 20.0, 'loss': 1.0}]
 
 
 def m_loss_table(order):
@@ -112,7 +134,8 @@ TOPO_MUT = {
     'per_degree_pch': m_per_degree(['pch']), 'per_degree_psd': m_per_degree(['psd']), 'per_degree_psw': m_per_degree(['psw']),
     'per_degree_mixed': m_per_degree(['pch', 'psd', 'psw']), 'per_degree_two': m_per_degree(['psw', 'pch']),
     'per_degree_interleaved': m_per_degree(['pch', 'psd', 'pch']),
-    'design_bands': m_design_bands, 'loss_table_asc': m_loss_table('asc'), 'loss_table_desc': m_loss_table('desc'),
+    'design_bands': m_design_bands, 'design_bands_two_roadms': m_design_bands_two,
+    'per_degree_two_roadms': m_per_degree_two_roadms, 'tables_and_lumped_on_two_fibres': m_two_tables, 'loss_table_asc': m_loss_table('asc'), 'loss_table_desc': m_loss_table('desc'),
     'loss_table_shuffled': m_loss_table('shuffled'), 'lumped_out_of_order': m_lumped, 'raman': m_raman, 'nulls': m_nulls,
     'roadm_no_variety': m_no_roadm_variety, 'per_degree_impairments': m_impairments,
     'delta_p_6digits': m_value('A>B:0:Edfa', ['operational', 'delta_p'], 1.234567),
